@@ -1,6 +1,7 @@
 import Norad.Lemmas.Kerning
 import Norad.Lemmas.SortCanon
 import Norad.Generated.Upconv
+import Norad.Generated.UpconvSite
 /-!
 # C15 / C10 — the passes themselves inside the source-level tie
 
@@ -267,5 +268,91 @@ theorem source_upconvert_eq_model : Gen.upconvertKerning = upconvertKerning := b
     | ok q =>
       obtain ⟨g2, t2⟩ := q
       simp only [source_rewrite_eq_model]
+
+/-! ## the call site in `Font::load_impl` (`tools/extract_upconv_site.py`, `Generated/UpconvSite.lean`)
+
+The arm of `load_impl` that converts is regenerated as a step table; `runSteps` gives every known step the meaning the model's
+`loadGroupsKerning` gives it (an unknown step, a missing glyph set, a missing value are `panic`s, which the model never returns
+here), so a table with a step missing, reordered or changed no longer computes the model's function. -/
+
+structure SiteSt where
+  glyphSet : Option (List Str) := none
+  conv : Option UpOut := none
+
+inductive Step | arm | glyphSetOfLayers | upconvert | validateReturned | value | unknown
+  deriving DecidableEq, Repr
+
+/-- the meaning of a row of the regenerated table; every row that is not literally one of the five is `unknown` -/
+def decodeStep (r : String × String) : Step :=
+  if r.1 = "arm" then .arm
+  else if r = ("let glyph_set", "names of the glyphs of the loaded layers") then .glyphSetOfLayers
+  else if r = ("let groups,kerning", "upconvert_kerning(g, k.unwrap_or_default, glyph_set)") then .upconvert
+  else if r = ("validate_groups(groups)", "GroupsUpconversionFailure returned") then .validateReturned
+  else if r = ("value", "Some(groups),Some(kerning)") then .value
+  else .unknown
+
+def runSteps (sfx : Nat → Str) (g : Groups) (k : Option Kerning) (layerNames : List Str) :
+    List Step → SiteSt → Res (Except LoadErr (Groups × Kerning))
+  | [], _ => .panic "call site: the arm has no value"
+  | .arm :: rest, st => runSteps sfx g k layerNames rest st
+  | .glyphSetOfLayers :: rest, st => runSteps sfx g k layerNames rest { st with glyphSet := some layerNames }
+  | .upconvert :: rest, st =>
+    match st.glyphSet with
+    | none => .panic "call site: glyph_set is not built yet"
+    | some S =>
+      match upconvertKerning sfx g (k.getD []) S with
+      | .panic s => .panic s
+      | .outOfFuel => .outOfFuel
+      | .ok o => runSteps sfx g k layerNames rest { st with conv := some o }
+  | .validateReturned :: rest, st =>
+    match st.conv with
+    | none => .panic "call site: nothing converted yet"
+    | some o =>
+      match validateGroups (sortEntries o.groups) with
+      | .error _ => .ok (.error .upconversionFailure)
+      | .ok () => runSteps sfx g k layerNames rest st
+  | .value :: _, st =>
+    match st.conv with
+    | none => .panic "call site: nothing converted yet"
+    | some o => .ok (.ok (o.groups, o.kerning))
+  | .unknown :: _, _ => .panic "call site: unknown step"
+
+/-- the table of the source, decoded -/
+theorem source_call_site_steps :
+    Generated.UpconvSite.armSteps.map decodeStep = [.arm, .glyphSetOfLayers, .upconvert, .validateReturned, .value] := by
+  decide +kernel
+
+/-- **source_upconversion_call_site_matches_model**: the statements of the converting arm of `load_impl`, as the source has them
+    now, compute the model's `loadGroupsKerning` on every legacy font with a (valid) groups file: the glyph set handed to
+    `upconvert_kerning` is the set of glyph names of the loaded layers, the validator runs on the converted groups and its
+    error is what the load returns, groups and kerning are both replaced by the results.  The other arms (format 3: untouched;
+    no groups file: nothing converted) and the two other validator calls (`load_groups`, `save_impl`, both `?`-propagated)
+    are the model's as tables. -/
+theorem source_upconversion_call_site_matches_model :
+    Generated.UpconvSite.matchArms =
+      [("bind", "groups,kerning <- groups,kerning"), ("(FormatVersion::V3,g,k)", "(g,k)"), ("(_,None,k)", "(None,k)"),
+       ("(_,Some(g),k)", "block")] ∧
+    Generated.UpconvSite.validators =
+      [("load_groups", "read groups; validate_groups(groups) InvalidGroups returned; Ok(groups)"),
+       ("save_impl", "validate_groups(self.groups) InvalidGroups returned")] ∧
+    ∀ (sfx : Nat → Str) (fmt : Nat) (g : Groups) (k : Option Kerning) (layerNames : List Str),
+      fmt ≠ 3 → validateGroups g = .ok () →
+      runSteps sfx g k layerNames (Generated.UpconvSite.armSteps.map decodeStep) {} = loadGroupsKerning sfx fmt (some g) k layerNames := by
+  refine ⟨by decide +kernel, by decide +kernel, ?_⟩
+  intro sfx fmt g k S hf hv
+  have hfmt : (fmt == 3) = false := by simpa using hf
+  rw [source_call_site_steps]
+  simp only [runSteps, loadGroupsKerning, hv, hfmt, Bool.false_eq_true, if_false, ↓reduceIte]
+  cases upconvertKerning sfx g (k.getD []) S with
+  | panic s => rfl
+  | outOfFuel => rfl
+  | ok o =>
+    simp only []
+    cases validateGroups (sortEntries o.groups) <;> rfl
+
+-- non-vacuity: the table of the source runs, and refuses a conversion whose result is invalid (two legacy groups sharing a glyph)
+example : runSteps decimal [("@MMK_L_A".toList, ["a".toList]), ("@MMK_L_B".toList, ["a".toList])] none []
+    (Generated.UpconvSite.armSteps.map decodeStep) {} = .ok (.error .upconversionFailure) := by
+  rw [(source_upconversion_call_site_matches_model.2.2 decimal 2 _ none [] (by decide) (by rfl))]; rfl
 
 end Kern
